@@ -168,10 +168,11 @@ pub fn gen(seed: u64, n: usize, _tier: &str) -> Vec<Case> {
     cases
 }
 
-/// the witness of the open class stolen-wakeup-overtakes (Props/C13.v c13_fifo_overtake_refuted): client 2
-/// blocks on r, then client 1 on q and r; one batch pushes to q, pops q and pushes y to r; client 1's wake-up
-/// finds q empty, looks at its other key and takes y although client 2 blocked on r first.  Model and
-/// implementation agree on it; the judge names the class.
+/// the witness of the class stolen-wakeup-overtakes (repaired 04ed30d; Props/C13.v c13_fifo_overtake_fixed), kept
+/// as a regression case: client 2 blocks on r, then client 1 on q and r; one batch pushes to q, pops q and
+/// pushes y to r; client 1's wake-up finds q empty.  It used to look at its other key and take y although
+/// client 2 blocked on r first; now it pops nothing, client 2 is served [r, y] by its own wake-up and client 1
+/// keeps waiting on q and r in its old place (second BDUMP).
 pub fn gen_overtake() -> Case {
     let bl = |keys: &[&[u8]]| -> V { let mut a: Vec<Vec<u8>> = vec![b"BLPOP".to_vec()]; for k in keys { a.push(k.to_vec()); } a.push(b"0".to_vec()); cmdo(&a) };
     let mut ops: Vec<Vec<Tok>> = vec![conn_op(OBS), bconn_op(1), bconn_op(2), bconn_op(3)];
